@@ -8,7 +8,7 @@ ALL = ["C%02d" % i for i in range(1, 21)]
 CHECKS = {
     "C01": dict(
         technique="Hypothesis-generated DSL programs and declare/ensure/solve histories against a reference evaluator with brute-force model enumeration, planted models and planted contradictions",
-        text="Programs are written through the public DSL from typed recursive recipes (every operator, literals on either side, n-ary/empty/constant-only aggregates). SAT answers are checked by evaluating every constraint under the published sol values (types and bounds included); UNSAT answers by exhaustive enumeration of the declared domains (enumerable class) or by construction (phi and its structural negation) on domains up to +-10^6; planted-SAT programs must be found SAT. Histories re-check after every prefix. Exploration: sampled, not exhaustive. Injected fault: on planted-satisfiable Latin-square programs z3 is made to answer unknown (global timeout 1 ms); find_answer may raise or find a checked model but must never return False.",
+        text="Programs are written through the public DSL from typed recursive recipes (every operator, literals on either side, n-ary/empty/constant-only aggregates). SAT answers are checked by evaluating every constraint under the published sol values (types and bounds included); UNSAT answers by exhaustive enumeration of the declared domains (enumerable class) or by construction (phi and its structural negation) on domains up to +-10^6; planted-SAT programs must be found SAT. Histories re-check after every prefix. Exploration: sampled, not exhaustive. Injected fault: on planted-satisfiable Latin-square programs z3 is made to answer unknown (global timeout 1 ms); find_answer may raise or find a checked model but must never return False. A third of the enumerable programs are built as DAGs (equal sub-recipes shared as one object, binary operators in augmented form) with later constraints extending sums / conjunctions of earlier ones.",
         note="Trusted base: vlib/gen_expr.rev (40-line evaluator of the recipe with the ordinary meaning), Python itertools enumeration. Only well-typed DSL-built trees; 1-ary SUB excluded. Default backend of the tree (z3 offline). 9/9 sensitivity mutants caught (tools/mutant_table.py).",
         design_ref="3/C01",
     ),
@@ -20,7 +20,7 @@ CHECKS = {
     ),
     "C03": dict(
         technique="Hypothesis-generated programs with captured solver input parsed by an independent S-expression reader (translation validation by truth functions), scripted protocol replies, and end-to-end differential runs through a stand-in solver",
-        text="(1) The exact text handed to the external solver (extension-module call or subprocess stdin) is captured for all five backend names in both modes, parsed by vlib/sexp (written from the Sugar syntax) and compared with the Solver: declarations as a set with domains, the # line with the registered keys, and the constraint lines as a multiset of truth functions over all (domain product <= 512) or 48 sampled assignments; native graph atoms are compared with the intended graph predicate of the generated graph and flags. (2) Scripted well-formed replies of both formats of CspuzSugarInterface.java (negative integers, ids >= 10, arbitrary decided subsets, Java order and permuted) must land in the right sol fields with the right Python types. (3) The C01 oracle is re-run through the stand-in under all five names, a subset through a real subprocess. Exploration (sampled).",
+        text="(1) The exact text handed to the external solver (extension-module call or subprocess stdin) is captured for all five backend names in both modes, parsed by vlib/sexp (written from the Sugar syntax) and compared with the Solver: declarations as a set with domains, the # line with the registered keys, and the constraint lines as a multiset of truth functions over all (domain product <= 512) or 48 sampled assignments; native graph atoms are compared with the intended graph predicate of the generated graph and flags. (2) Scripted well-formed replies of both formats of CspuzSugarInterface.java (negative integers, ids >= 10, arbitrary decided subsets, Java order and permuted) must land in the right sol fields with the right Python types. (3) The C01 oracle is re-run through the stand-in under all five names, a subset through a real subprocess. Exploration (sampled). Half of the real-subprocess cases run with config.solver_timeout set and a stand-in psutil, the stand-in solver writing diagnostics to stderr.",
         note="Trusted base: vlib/sexp, vlib/refsem, vlib/fakesolver; the Java file is read as the specification of the reply format (not executed, no Sugar jar offline). Constraint line order is not asserted. 15/15 sensitivity mutants caught.",
         design_ref="3/C03",
     ),
@@ -40,7 +40,7 @@ CHECKS = {
 
 CHECKS["C20"] = dict(
     technique="model-based testing: Hypothesis-generated configuration histories replayed against a reference model of the documented dispatch rules, observing instantiated backend classes, stand-in call logs and posted programs",
-    text="Generated histories combine environment variables (backend name incl. auto/junk/empty; 13 spellings of the boolean flags; backend path), the importable subset of {cspuz_core, enigma_csp, pycsugar, z3} (sys.modules substitution), later assignments to cspuz.config and per-call arguments (backend None/name/class/junk; use_graph_primitive None/True/False x acyclic for every graph function). After each step the instantiated backend class, the invoked external entry point (stand-in call logs, subprocess argv, presence of the # line) and the presence of native graph operators in solver.constraints are compared with a reference model of the documented rules; import-time Config() is covered by fresh-interpreter cases. Exploration (sampled histories).",
+    text="Generated histories combine environment variables (backend name incl. auto/junk/empty; 13 spellings of the boolean flags; backend path), the importable subset of {cspuz_core, enigma_csp, pycsugar, z3} (sys.modules substitution), later assignments to cspuz.config and per-call arguments (backend None/name/class/junk; use_graph_primitive None/True/False x acyclic for every graph function). After each step the instantiated backend class, the invoked external entry point (stand-in call logs, subprocess argv, presence of the # line) and the presence of native graph operators in solver.constraints are compared with a reference model of the documented rules; import-time Config() is covered by fresh-interpreter cases. Exploration (sampled histories). with_borders is called in four argument forms (sizes list, no sizes, all-None list, frame + IntArray2D).",
     note="Trusted base: the 25-line reference model in checks/c20.py (ref_config / expected_native); stand-ins for the external solvers. A named backend whose module is missing must still instantiate its class; the ImportError is accepted. 13/13 sensitivity mutants caught.",
     design_ref="3/C20",
 )
@@ -73,7 +73,7 @@ CHECKS["C05"] = dict(
 
 CHECKS["C06"] = dict(
     technique="small-scope exhaustion of all edge subsets (fixed-pattern probing; AllSAT projection vs DFS cycle enumeration on larger frames) through an independent solver, with the returned array checked for being forced",
-    text="Cycle (rank + native) and path (native): every loop-free multigraph with n<=4, m<=5 (thorough m<=6, n<=5), drawn multigraphs n<=5, m<=8, every BoolGridFrame 0<=h,w<=3 (thorough + 3x4): all 2^m subsets by fixed-pattern probing when m<=12, otherwise the AllSAT projection of the posted program on the edge variables must equal {empty} + the DFS-enumerated simple cycles of the lattice (3x3: 214 models cover 2^24 subsets). For every admitted pattern 'pattern and returned array != visited vertices' must be UNSAT; frame results must have shape (h+1, w+1). A fifth of the graphs are Graph objects that the same constraint already used before more edges were added (stale-cache histories). End-to-end find_answer cases check the returned array's sol. Exhaustive within the scope.",
+    text="Cycle (rank + native) and path (native): every loop-free multigraph with n<=4, m<=5 (thorough m<=6, n<=5), drawn multigraphs n<=5, m<=8, every BoolGridFrame 0<=h,w<=3 (thorough + 3x4): all 2^m subsets by fixed-pattern probing when m<=12, otherwise the AllSAT projection of the posted program on the edge variables must equal {empty} + the DFS-enumerated simple cycles of the lattice (3x3: 214 models cover 2^24 subsets). For every admitted pattern 'pattern and returned array != visited vertices' must be UNSAT; frame results must have shape (h+1, w+1). A fifth of the graphs are Graph objects that the same constraint already used before more edges were added (stale-cache histories). End-to-end find_answer cases check the returned array's sol. Exhaustive within the scope. Graphs with self-loop edges: lone active loop don't-care, loop plus any other active edge must be rejected.",
     note="Trusted base: vlib/graphref (degrees + union-find), vlib/lattice (geometry, DFS enumeration; the two reference formulations are cross-checked against each other at run time), vlib/refz3. The rank form of single_path raising RuntimeError('TODO') is documented. 11/11 sensitivity mutants caught; found and fixed 'single_path rejects the empty set'.",
     design_ref="3/C06",
 )
@@ -87,7 +87,7 @@ CHECKS["C07"] = dict(
 
 CHECKS["C10"] = dict(
     technique="small-scope exhaustion of all segment subsets of small frames (fixed-pattern probing / AllSAT projection vs brute-force reference predicate) through an independent solver, returned arrays checked for being forced",
-    text="Frames 0x2, 0x3, 1x1..2x2, 1x3, 3x1: all 2^m subsets probed; 2x3/3x2 (2^17 subsets) by AllSAT projection against the reference predicate evaluated on every subset (quick: cycle form; thorough: path form and the 3x3 cycle form too); single_cycle on/off, rank and native encodings (native through a CEGAR loop because the split graph's flags are variables), the single_cycle_crossable alias. Reference: degrees in {0,1,2,4} ({0,2,4}), 4 only at interior points, one strand under union-find with straight pairs passing through at 4-way points. Both returned arrays must be forced (visited, 4-way) on every admitted pattern. Constructed end-to-end cases up to 3x3 (4x4). Exhaustive within the scope.",
+    text="Frames 0x2, 0x3, 1x1..2x2, 1x3, 3x1: all 2^m subsets probed; 2x3/3x2 (2^17 subsets) by AllSAT projection against the reference predicate evaluated on every subset (quick: cycle form; thorough: path form and the 3x3 cycle form too); single_cycle on/off, rank and native encodings (native through a CEGAR loop because the split graph's flags are variables), the single_cycle_crossable alias. Reference: degrees in {0,1,2,4} ({0,2,4}), 4 only at interior points, one strand under union-find with straight pairs passing through at 4-way points. Both returned arrays must be forced (visited, 4-way) on every admitted pattern. Constructed end-to-end cases up to 3x3 (4x4). Exhaustive within the scope. Dense weave trails on 4x4-7x6 frames (up to 84 segments in one strand) with one-segment neighbours; multi-strand refutations are skipped on frames with more than 60 segments.",
     note="Trusted base: vlib/lattice geometry, union-find strand model in checks/c10.analyse, vlib/refz3. 9/9 sensitivity mutants caught; the design-list mutant 'allow crossing on the boundary' is equivalent (boundary degree <= 3) and was dropped.",
     design_ref="3/C10",
 )
@@ -108,7 +108,7 @@ CHECKS["C15"] = dict(
 
 CHECKS["C16"] = dict(
     technique="Hypothesis-generated problems per puzzle codec with a round-trip oracle, an independently written pzpr-format decoder as differential oracle, and legacy-vs-combinator text comparison",
-    text="For nurikabe, masyu, slitherlink, sudoku, nurimisaki, yajilin ('..', '??', arrows with numbers up to 20), heyawake (general and rectangular form), lits, norinori, compass, star_battle, aquarium: problems on boards 1..12 (some 24/30) per side, square and not, with long empty runs and values at 15/16/255/256/300, rooms and cells in any order. (1) decode(encode(p)) == p with dimensions; (2) the URL carries name/width/height in the puzz.link order (split without cspuz' regex); (3) the body read by vlib/pzpr_ref equals the problem; (4) util.encode_array == Grid(OneOf(Spaces, HexInt)) text and util.encode_grid_segmentation == Rooms text. Exploration (sampled).",
+    text="For nurikabe, masyu, slitherlink, sudoku, nurimisaki, yajilin ('..', '??', arrows with numbers up to 20), heyawake (general and rectangular form), lits, norinori, compass, star_battle, aquarium: problems on boards 1..12 (some 24/30) per side, square and not, with long empty runs and values at 15/16/255/256/300, rooms and cells in any order. (1) decode(encode(p)) == p with dimensions; (2) the URL carries name/width/height in the puzz.link order (split without cspuz' regex); (3) the body read by vlib/pzpr_ref equals the problem; (4) util.encode_array == Grid(OneOf(Spaces, HexInt)) text and util.encode_grid_segmentation == Rooms text. Exploration (sampled). Every decode is repeated after the first result was edited in place; the second result must equal a deep copy of the first.",
     note="Trusted base: vlib/pzpr_ref (DESIGN.md Appendix B), self-checked at start-up against 40 literal URLs of the repository whose expected problems are stored in corpus/literal_urls.json; aquarium / starbattle layouts have no literal URL to validate against. 14/14 sensitivity mutants caught; two genuine defects found and fixed (compass width/height, yajilin '??' and >= 16).",
     design_ref="3/C16",
 )
